@@ -344,7 +344,8 @@ def handleRename (_c : Ctx) (cmd : List Bytes) : Prog Res :=
     .call (.getValues [oldKey]) fun (vs : List Val) =>
     match vs.headD .nil with
     | .nil => .ret (.err (b "no such key"))
-    | v => setOrErr [(newKey, v)] (.call (.deleteKey oldKey) fun _ => .ret (.ok okReply))
+    | v => if oldKey == newKey then .ret (.ok okReply) else
+           setOrErr [(newKey, v)] (.call (.deleteKey oldKey) fun _ => .ret (.ok okReply))
   | _ => .ret (.err wrongArgs)
 
 /-- :678 handleFlush (FLUSHALL / FLUSHDB) -/
